@@ -433,6 +433,33 @@ let bfs (n : int) (cap : int) (nlab : int) (ndat : int) (maxstates : int) : unit
   Printf.printf "H bfs-%d-%d-%d-%d %d\n" n cap nlab ndat n;
   print_string (Buffer.contents buf)
 
+(* ---- xshow mode: the ops of each history (one graph, core calls only) are
+   turned into the model's [op] values and handed to the extracted
+   [xshow_run]; the numbers are printed on one line (extraction cross-check) *)
+let xshow_history (n : int) (lines : string list) : unit =
+  let cap = ref O and ops = ref [] in
+  List.iter
+    (fun l ->
+      let t = Array.of_list (List.filter (fun s -> s <> "") (String.split_on_char ' ' (String.trim l))) in
+      if Array.length t > 0 && t.(0).[0] <> '#' then
+        match t.(0) with
+        | "NEW" -> cap := id_of_string t.(2)
+        | "ADD" -> ops := OAdd (id_of_string t.(2)) :: !ops
+        | "BIND" -> ops := OBind (id_of_string t.(2), id_of_string t.(3), label_in t.(4)) :: !ops
+        | "PUT" -> ops := OPut (id_of_string t.(2), hex_in t.(3)) :: !ops
+        | "DATA" -> ops := OData (id_of_string t.(2)) :: !ops
+        | "NEXT" -> ops := ONext :: !ops
+        | "KID" -> ops := OKid (id_of_string t.(2), label_in t.(3)) :: !ops
+        | "KIDS" -> ops := OKids (id_of_string t.(2)) :: !ops
+        | "KEYS" -> ops := OKeys :: !ops
+        | _ -> ())
+    lines;
+  let r = xshow_run (nat_of_int n) !cap (List.rev !ops) in
+  print_string (String.concat " " (List.map dec_of_n r));
+  print_string "\nEND\n"
+
+let xshow_mode = Array.length Sys.argv > 1 && Sys.argv.(1) = "xshow"
+
 let spec_mode = Array.length Sys.argv > 1 && Sys.argv.(1) = "spec"
 
 let main () =
@@ -441,7 +468,8 @@ let main () =
     (match !header with
      | Some (id, n) ->
          Printf.printf "H %s %d\n" id n;
-         if spec_mode then spec_history n (List.rev !cur) else run_history n (List.rev !cur)
+         if xshow_mode then xshow_history n (List.rev !cur)
+         else if spec_mode then spec_history n (List.rev !cur) else run_history n (List.rev !cur)
      | None -> ());
     cur := []
   in
